@@ -12,6 +12,7 @@ unexpected None, etc.).
 """
 import ast
 
+from zcstatic import absint as A
 from zcstatic import cfg as cfgmod
 from zcstatic.excflow import PSEUDO_OWN, UNKNOWN
 from zcstatic.model import dotted, src, walk_shallow
@@ -1007,6 +1008,51 @@ def _r5_mappings(ctx):
                                 why = "dominated by `%s`" % src(a)
             if why is None:
                 why = _r5_structural_guard(fi, x, key_txt, base_txt)
+            # (i) the key is a parameter of a private helper the rules do not
+            # know, the mapping is a global or a field, and every call site
+            # of the helper is dominated by the membership test of the
+            # argument in that mapping
+            if why is None and isinstance(sl, ast.Name) \
+                    and sl.id in fi.params and A.is_unknown_helper(fi) \
+                    and not (isinstance(x.value, ast.Name)
+                             and P._is_local(fi, x.value.id)):
+                idx = fi.params.index(sl.id)
+                sites = []
+                for caller in reach.values():
+                    for call in walk_shallow(caller.node):
+                        if isinstance(call, ast.Call):
+                            cs = P.resolve_call(caller, call)
+                            hit = [c for c in cs
+                                   if c.kind == "repo" and c.fn is fi]
+                            if hit:
+                                sites.append((caller, call, hit[0]))
+                ok = bool(sites)
+                for caller, call, c in sites:
+                    off = 1 if (fi.cls is not None and c.how not in (
+                        "basecall", "func")) else 0
+                    j = idx - off
+                    if j < 0 or j >= len(call.args):
+                        ok = False
+                        break
+                    atxt = src(call.args[j])
+                    gc = cfgmod.CFG(caller.node)
+                    guarded = False
+                    for cn in gc.node_containing(call):
+                        for t, pol in gc.path_conditions(cn):
+                            a = t.ast
+                            if isinstance(a, ast.Compare) \
+                                    and len(a.ops) == 1 \
+                                    and src(a.left) == atxt \
+                                    and src(a.comparators[0]) == base_txt \
+                                    and ((isinstance(a.ops[0], ast.In)
+                                          and pol)
+                                         or (isinstance(a.ops[0], ast.NotIn)
+                                             and not pol)):
+                                guarded = True
+                    ok = ok and guarded
+                if ok:
+                    why = ("the helper's %d call site(s) pass a key tested "
+                           "`in %s` before the call" % (len(sites), base_txt))
             run.check(why is not None, "C07.R5", fi.qualname, construct,
                       why or "", "the mapping lookup %s has no guard: a key "
                       "derived from configuration text that is absent raises "
@@ -1036,9 +1082,11 @@ def _r7_validator(ctx):
         loads = [e for e in p.effects if e[0] == "call"
                  and "loadConfigFile" in A.fmt(e[1][1])]
         caught = [a for a, v in p.valuation.items() if a[0] == "raises"
-                  and v is True and "loadConfigFile" in A.fmt(a[1])]
+                  and v not in (False, None)
+                  and "loadConfigFile" in A.fmt(a[1])]
         other = [a for a, v in p.valuation.items() if a[0] == "raises"
-                 and v is True and "loadConfigFile" not in A.fmt(a[1])]
+                 and v not in (False, None)
+                 and "loadConfigFile" not in A.fmt(a[1])]
         if other:
             continue
         # only messages printed from here on count: those after the first load
